@@ -246,6 +246,29 @@ template <size_t L, size_t SU = SU_DEFAULT> struct Box : public IBox {
    static std::string itexp(size_t pos, const std::string& ref) { return pos >= ref.size() ? "end" : std::to_string(pos); }
    static size_t clampc(size_t c) { return std::min(c, L + 1); }
 
+   using RIT = typename FS::reverse_iterator;
+   /// applies the moves of token `mi` (`-` or `i`, `d`, `a<n>`, `s<n>` joined by commas) to an iterator
+   template <class It> void moves(It& it, size_t mi) const {
+      const std::string& m = A->at(mi);
+      if (m == "-") return;
+      size_t i = 0;
+      for (;;) {
+         size_t j = m.find(',', i);
+         std::string w = m.substr(i, j == std::string::npos ? std::string::npos : j - i);
+         if (w == "i") ++it;
+         else if (w == "d") --it;
+         else if (w.size() > 1 && w[0] == 'a') it += num(w.substr(1));
+         else if (w.size() > 1 && w[0] == 's') it -= num(w.substr(1));
+         else throw BadOp();
+         if (j == std::string::npos) break;
+         i = j + 1;
+      }
+   }
+   IT walkF(size_t pi, size_t mi) const { IT it = isEnd(pi) ? s->end() : IT(s, N(pi)); moves(it, mi); return it; }
+   RIT walkR(size_t pi, size_t mi) const { RIT it = isEnd(pi) ? s->rend() : RIT(s, N(pi)); moves(it, mi); return it; }
+   std::string idxF(const IT& it) const { return it == s->end() ? "end" : std::to_string(it - s->begin()); }
+   std::string idxR(const RIT& it) const { return it == s->rend() ? "end" : std::to_string((s->rend() - it) - 1); }
+
    template <class Obj> static std::string state(const Obj& o, size_t cap, const std::string& pfx = "") {
       size_t len = o.length();
       size_t shown = std::min(len, cap);
@@ -387,6 +410,32 @@ template <size_t L, size_t SU = SU_DEFAULT> struct Box : public IBox {
       OP("it_deref", 1) { size_t k = N(1);
          return run(IMPL { return rc(*CI(s, k)); }, TWIN { return rc(ref.at(k)); }); }
       OP("it_dist", 0) return run(IMPL { return rn(s->cend() - s->cbegin()); }, TWIN { return rn(ref.cend() - ref.cbegin()); });
+      // iterator arithmetic beyond ++ (no std::string twin: positions outside the string become end(), where a
+      // std::string iterator is undefined): `it_walk f|r <start> <moves>` prints the final index, `it_walkd` dereferences,
+      // `it_walki ... <k>` applies operator[], `it_rel f|r <op> <a> <b>` the relational operators
+      if ((op == "it_walk" || op == "it_walkd") && a.size() == 4) {
+         bool deref = op == "it_walkd";
+         if (a[1] == "f") return run(IMPL { auto it = walkF(2, 3); return deref ? rc(*it) : idxF(it); }, TWIN { RET_; });
+         if (a[1] == "r") return run(IMPL { auto it = walkR(2, 3); return deref ? rc(*it) : idxR(it); }, TWIN { RET_; });
+         throw BadOp();
+      }
+      OP("it_walki", 4) { size_t k = N(4);
+         if (a[1] == "f") { auto it = walkF(2, 3); size_t mi = (it == s->end()) ? NPOS : static_cast<size_t>(it - s->begin());
+            if (mi + k > L) throw BadOp();          // wrapping sum, as in the iterator; beyond the buffer: undefined
+            return run(IMPL { return rc(it[k]); }, TWIN { RET_; }); }
+         if (a[1] == "r") { auto it = walkR(2, 3); size_t mi = (it == s->rend()) ? NPOS : static_cast<size_t>(s->rend() - it) - 1;
+            if (k <= mi && mi - k > L) throw BadOp();
+            return run(IMPL { return rc(it[k]); }, TWIN { RET_; }); }
+         throw BadOp(); }
+      OP("it_rel", 4) { size_t r = N(2);
+         auto rel = [&](const auto& x, const auto& y) -> bool {
+            switch (r) { case 0: return x < y; case 1: return x <= y; case 2: return x > y; case 3: return x >= y;
+                         case 4: return x == y; default: return x != y; } };
+         if (a[1] == "f") { IT x = isEnd(3) ? s->end() : IT(s, N(3)), y = isEnd(4) ? s->end() : IT(s, N(4));
+            return run(IMPL { return rb(rel(x, y)); }, TWIN { RET_; }); }
+         if (a[1] == "r") { RIT x = isEnd(3) ? s->rend() : RIT(s, N(3)), y = isEnd(4) ? s->rend() : RIT(s, N(4));
+            return run(IMPL { return rb(rel(x, y)); }, TWIN { RET_; }); }
+         throw BadOp(); }
 
       // ----- insert ---------------------------------------------------------------------------
       OP("insert_icc", 3) { size_t i = N(1), c = N(2); char ch = C(3);
@@ -449,9 +498,11 @@ template <size_t L, size_t SU = SU_DEFAULT> struct Box : public IBox {
          return run(IMPL { s->append(F, p, c); RET_; }, TWIN { ref.append(F.str(), p, c); RET_; }); }); }
       OP("append_fp", 2) { size_t p = N(2); return withF(1, [&](const auto& F) {
          return run(IMPL { s->append(F, p); RET_; }, TWIN { ref.append(F.str(), p, NPOS); RET_; }); }); }
-      OP("append_pc", 2) { const char* p = P(1); size_t c = N(2); std::string ps = PS(1);
-         // documented: "Number of characters from str to append"; the code stops at the terminator
-         return run(IMPL { s->append(p, c); RET_; }, TWIN { ref.append(ps.c_str(), std::min(c, ps.size())); RET_; }); }
+      OP("append_pc", 2) { const char* p = P(1); size_t c = N(2); std::string pr = PR(1); pr.push_back('\0');
+         // twin = textbook std::string::append( p, c): the c bytes at p, NULs included (c limited to the allocation,
+         // beyond it std::string is undefined).  The code stops at the terminator: outside C11's domain for
+         // c > strlen( p) (theorem C11_deviation_count_beyond_terminator), compared with the model there.
+         return run(IMPL { s->append(p, c); RET_; }, TWIN { ref.append(pr.data(), std::min(c, pr.size())); RET_; }); }
       OP("append_p", 1) { const char* p = P(1); std::string ps = PS(1);
          return run(IMPL { s->append(p); RET_; }, TWIN { ref.append(ps.c_str()); RET_; }); }
       OP("append_itit", 2) { size_t x = tn(1), y = tn(2);
@@ -489,10 +540,10 @@ template <size_t L, size_t SU = SU_DEFAULT> struct Box : public IBox {
          return run(IMPL { return rs(s->compare(p1, c1, F, p2, c2)); }, TWIN { return rs(ref.compare(p1, c1, F.str(), p2, c2)); }); }); }
       OP("cmp_ccscc", 5) { size_t p1 = N(1), c1 = N(2), p2 = N(4), c2 = N(5); const std::string& x = SS(3);
          return run(IMPL { return rs(s->compare(p1, c1, x, p2, c2)); }, TWIN { return rs(ref.compare(p1, c1, x, p2, c2)); }); }
-      OP("cmp_ccpc", 4) { size_t p1 = N(1), c1 = N(2), c2 = N(4); const char* p = P(3); std::string ps = PS(3);
-         // the code clamps count2 to strlen(str)
+      OP("cmp_ccpc", 4) { size_t p1 = N(1), c1 = N(2), c2 = N(4); const char* p = P(3); std::string pr = PR(3); pr.push_back('\0');
+         // twin = textbook compare( pos, n, p, n2) over the n2 bytes at p; the code clamps count2 to strlen( str)
          return run(IMPL { return rs(s->compare(p1, c1, p, c2)); },
-                    TWIN { return rs(ref.compare(p1, c1, ps.c_str(), std::min(c2, ps.size()))); }); }
+                    TWIN { return rs(ref.compare(p1, c1, pr.data(), std::min(c2, pr.size()))); }); }
 
       // ----- starts_with / ends_with / contains (std::string has them from C++20 on: emulated) -----
       OP("sw_f", 1) return withF(1, [&](const auto& F) { std::string x = F.str();
@@ -538,9 +589,10 @@ template <size_t L, size_t SU = SU_DEFAULT> struct Box : public IBox {
          return run(IMPL { s->replace(p1, c1, x, p2); RET_; }, TWIN { ref.replace(p1, c1, x, p2, NPOS); RET_; }); }
       OP("rep_ccp", 3) { size_t p1 = N(1), c1 = N(2); const char* p = P(3); std::string ps = PS(3);
          return run(IMPL { s->replace(p1, c1, p); RET_; }, TWIN { ref.replace(p1, c1, ps.c_str()); RET_; }); }
-      OP("rep_ccpc", 4) { size_t p1 = N(1), c1 = N(2), c2 = N(4); const char* p = P(3); std::string ps = PS(3);
+      OP("rep_ccpc", 4) { size_t p1 = N(1), c1 = N(2), c2 = N(4); const char* p = P(3); std::string pr = PR(3); pr.push_back('\0');
+         // twin = textbook replace( pos, n, p, n2) with the n2 bytes at p; the code clamps count2 to strlen( str)
          return run(IMPL { s->replace(p1, c1, p, c2); RET_; },
-                    TWIN { ref.replace(p1, c1, ps.c_str(), std::min(c2, ps.size())); RET_; }); }
+                    TWIN { ref.replace(p1, c1, pr.data(), std::min(c2, pr.size())); RET_; }); }
       OP("rep_cccc", 4) { size_t p1 = N(1), c1 = N(2), c2 = N(3); char ch = C(4);
          return run(IMPL { s->replace(p1, c1, c2, ch); RET_; }, TWIN { ref.replace(p1, c1, clampc(c2), ch); RET_; }); }
       OP("rep_itit_itit", 4) { CI f = ci(1), l = ci(2); size_t i = ip(1), j = ip(2); size_t x = tn(3), y = tn(4); if (x > y) throw BadOp();
